@@ -133,26 +133,26 @@ Proof.
 Qed.
 
 Lemma zip_pages dest src t : zip_merge dest src = Ok t ->
-  no_node_crop dest = true -> no_node_crop src = true ->
+  no_node_crop dest = true ->
   Forall (fun v => v_media v <> None) (pages_of src) ->
   pages_of t = interleave (pages_of dest) (pages_of src).
 Proof.
-  intros Ht Hd Hs Hm.
+  intros Ht Hd Hm.
   assert (HQ : forall inh a : attrs, a_crop inh = None -> no_crop a = true -> a_crop (inherit inh a) = None).
   { intros inh a Hi Ha. unfold no_crop in Ha. simpl. destruct (a_crop a); [discriminate|exact Hi]. }
   assert (Hw : forall (inh : attrs) (s : rpage), a_crop inh = None ->
-            crop_own s /\ a_media (snd s) <> None ->
+            own_consistent s /\ a_media (snd s) <> None ->
             view (weave_page s, inherit inh (pg_attrs (weave_page s))) = view s).
-  { intros inh [p a] Hi [Hc Hmed]. unfold crop_own in Hc. simpl in *.
+  { intros inh [p a] Hi [[i0 Hown] Hmed]. simpl in *.
     unfold view. simpl. unfold rot_of at 1. simpl.
-    destruct (a_media a) as [m|]; [|congruence]. simpl. rewrite Hi, Hc.
-    destruct (a_crop (pg_attrs p)); reflexivity. }
-  assert (Hsrc : Forall (fun s => crop_own s /\ a_media (snd s) <> None) (rpages src)).
+    destruct (a_media a) as [m|]; [|congruence]. simpl. rewrite Hi. subst a. simpl.
+    destruct (a_crop (pg_attrs p)); [reflexivity|]. destruct (a_crop i0); reflexivity. }
+  assert (Hsrc : Forall (fun s => own_consistent s /\ a_media (snd s) <> None) (rpages src)).
   { unfold pages_of in Hm. rewrite Forall_map in Hm.
-    pose proof (no_crop_resolve src no_attrs eq_refl Hs) as Hc. fold (rpages src) in Hc.
+    pose proof (resolve_own src no_attrs) as Hc. fold (rpages src) in Hc.
     rewrite Forall_forall in *. intros x Hx. split; [apply Hc|apply (Hm x)]; assumption. }
   destruct (zip_merge_gen view view (fun inh => a_crop inh = None) no_crop
-              (fun s => crop_own s /\ a_media (snd s) <> None) HQ Hw dest src t eq_refl Hd Hsrc Ht) as [H1 _].
+              (fun s => own_consistent s /\ a_media (snd s) <> None) HQ Hw dest src t eq_refl Hd Hsrc Ht) as [H1 _].
   exact H1.
 Qed.
 
@@ -175,11 +175,15 @@ Lemma split_witnesses_fixed :
   (exists docs, split_span doc_inh_negrot 1 = Ok docs /\ concat (map pages_of docs) = pages_of doc_inh_negrot).
 Proof. split; eexists; (split; [vm_compute; reflexivity|]); reflexivity. Qed.
 
+(* a source page that inherits its CropBox keeps it when woven into another document (since the fix of
+   weaveInPage / AppendPages) ... *)
+Lemma zip_witness_fixed :
+  exists t, zip_merge doc_plain doc_inh_crop = Ok t /\
+    pages_of t = interleave (pages_of doc_plain) (pages_of doc_inh_crop).
+Proof. eexists. split; [vm_compute; reflexivity|]. reflexivity. Qed.
+
+(* ... but a source page WITHOUT any CropBox still picks up the CropBox inherited at its new position *)
 Lemma zip_refuted :
-  (exists t, zip_merge doc_plain doc_inh_crop = Ok t /\
-     pages_of t <> interleave (pages_of doc_plain) (pages_of doc_inh_crop)) /\
-  (exists t, zip_merge doc_inh_crop doc_plain = Ok t /\
-     pages_of t <> interleave (pages_of doc_inh_crop) (pages_of doc_plain)).
-Proof.
-  split; eexists; (split; [vm_compute; reflexivity|]); vm_compute; congruence.
-Qed.
+  exists t, zip_merge doc_inh_crop doc_plain = Ok t /\
+    pages_of t <> interleave (pages_of doc_inh_crop) (pages_of doc_plain).
+Proof. eexists. split; [vm_compute; reflexivity|]. vm_compute. congruence. Qed.
